@@ -4,12 +4,43 @@
 //! that a counterexample can be replayed against the real build.
 #![allow(clippy::all)]
 #![allow(dead_code)]
+#![allow(unused)]
 
 pub mod shim;
 pub mod common;
 pub mod gen_tables;
+pub mod rmodel;
+pub mod c01_tables;
+pub mod spacing;
+pub mod reflex;
 #[cfg(not(kani))]
 pub mod registry;
 
 #[cfg(feature = "c10")]
 pub mod c10;
+#[cfg(feature = "c01")]
+pub mod c01;
+#[cfg(feature = "c02")]
+pub mod c02;
+#[cfg(feature = "c03")]
+pub mod c03;
+#[cfg(feature = "c04")]
+pub mod c04;
+#[cfg(feature = "c06")]
+pub mod c06;
+#[cfg(feature = "c07")]
+pub mod c07;
+#[cfg(feature = "c08")]
+pub mod c08;
+#[cfg(feature = "c09")]
+pub mod c09;
+#[cfg(feature = "c12")]
+pub mod c12;
+#[cfg(feature = "c13")]
+pub mod c13;
+#[cfg(feature = "c14")]
+pub mod c14;
+#[cfg(feature = "c15")]
+pub mod c15;
+#[cfg(feature = "c17")]
+pub mod c17;
